@@ -204,9 +204,9 @@ PROPS = {
     },
     "C17": {
         "mc": ["enc_avps"], "gen": ["bitmask"],
-        "rule": "4 kinds x 4 constructor combinations (complete); wire words: all one-bit, all complements, two-bit with "
+        "rule": "4 kinds x 4 constructor combinations (complete); ALL 2^32 wire words of every kind swept inside the harness against the bits the constructor sets (the specification pins those to the layout); also wire words: all one-bit, all complements, two-bit with "
                 "bits 6/7/30/31, random; accessor = the bit learned from the constructor",
-        "assumptions": COMMON_ASSUMPTIONS + ["the 2^32 word space is sampled"],
+        "assumptions": COMMON_ASSUMPTIONS + ["all 2^32 wire words are swept in the release build (and in the debug-assertion build in the thorough tier; 2^28 of them in the quick tier)"], "exhaustive": True,
     },
     "C18": {
         "mc": ["reader_q", "reader_t", "writer_q", "writer_t"], "gen": ["cursor", "vecwriter"], "canonical": True,
